@@ -12,7 +12,7 @@ for d in sorted(glob.glob('/verif/seeded/C*-m*')):
     mode=M.get(mid, M['_default'][prop])
     n=M['_n'].get(mode.split(' ')[0], 300 if not mode.startswith(('sys','wire')) else 40)
     if not mode.startswith(('sys','wire')):
-        n={'C02':500,'C11':150}.get(prop,200) if prop not in ('C01','C03','C04','C05') else 300
+        n={'C02':500,'C11':100,'C12':100,'C19':100}.get(prop,200) if prop not in ('C01','C03','C04','C05') else 300
     print(d, mode.replace(' ','_'), n)
 PY
 cat /tmp/sweep_jobs.txt | xargs -P 6 -L 1 bash -c '/verif/tools/try_mutant.sh $0 "${1//_/ }" $2 >> '$out' 2>&1'
